@@ -64,6 +64,7 @@ def encSizeOf (enc : String) : Option Nat :=
   | "i32" | "u32" => some 4
   | "i64" | "u64" | "int" => some 8
   | "te7" => some 7
+  | "f64" => some 8
   | _ => if enc.startsWith "bytes" then (enc.drop 5).toNat? else none
 
 def init : State := {}
@@ -208,6 +209,7 @@ def stepCore (st : State) (toks : List String) : State × String :=
   | ["trie.stat"] =>
     (st, match Slim.stat st.msg st.levels with | .ok r => statStr r | .error e => errStr e)
   | ["trie.string"] =>
+    if st.enc == "f64" && st.has then (st, "float-values-not-rendered") else
     (st, both st (fun v => match Slim.toStringSlim v (fmtVal st.enc) with
       | .ok s => toString s.length ++ " " ++ fnv64 (strBytes s)
       | .error e => errStr e))
